@@ -40,7 +40,7 @@ fn gen_ast(rng: &mut Rng) -> Vec<Node> {
                 }
                 v.push(Node::Lit(s));
             }
-            4 => v.push(Node::BraceWs(if rng.chance(1, 5) { '\t' } else { ' ' })),
+            4 => v.push(Node::BraceWs(match rng.below(6) { 0 => '\t', 1 => '\n', _ => ' ' })),
             5 if v.len() < 12 && rng.chance(1, 2) => v.push(Node::NL),
             _ => {
                 let colon = rng.chance(3, 4);
@@ -144,6 +144,14 @@ fn reference(ast: &[Node], msg: &str, prefix: &str, pos: u64, len: u64) -> Vec<V
     for n in ast {
         let alts: Vec<String> = match n {
             Node::Lit(l) => vec![l.clone()],
+            Node::BraceWs('\n') => {
+                // the brace stands for itself and the newline ends the line
+                for c in lines.last_mut().unwrap().iter_mut() {
+                    c.push('{');
+                }
+                lines.push(vec![String::new()]);
+                continue;
+            }
             Node::BraceWs(c) => vec![format!("{{{}", if *c == '\t' { " ".repeat(8) } else { c.to_string() })],
             Node::NL => {
                 lines.push(vec![String::new()]);
